@@ -98,7 +98,7 @@ def resolve(alias: str) -> str:
 
 def configs(tier, seed):
     return [dict(kind='crosshair', name='crosshair alias contracts', tier=tier), dict(kind='fromarg', name='from_arg dispatch'),
-            dict(kind='registry', name='registry enumeration'), dict(kind='nested', name='nested configuration vs explicit', tier=tier, seed=seed)]
+            dict(kind='registry', name='registry enumeration'), dict(kind='history', name='lookup history vs late registration'), dict(kind='nested', name='nested configuration vs explicit', tier=tier, seed=seed)]
 
 
 def run_crosshair(cfg):
@@ -245,6 +245,82 @@ def run_fromarg(cfg):
         else:
             viol.append(dict(kind='fromarg', what=res[0], detail=str(res[1:])[:200], **{'class': 'fromarg/' + res[0]}))
     return dict(obligations=ob, discharged=dis, violations=viol, samples=[{'config': 'from_arg', 'cases': ob}], twin=dis > 0)
+
+
+def _late(A2, with_sibling, Probe):
+    """classes registered after the lookups of the history: below a concrete class (a grandchild of the family root)"""
+    if with_sibling:
+        class E(Probe):
+            aliases = {'e'}
+
+    class A3(A2):
+        aliases = {'a', 'shared', 'late'}
+    return A3
+
+
+HIST_ALIASES = ['a', 'shared', 'deep', 'late', 'nope']
+
+
+def _hist_run(fn_from_alias, Probe, A, A2, hist, sibling, final_alias, final_via_root, late=_late):
+    """hist: list of (alias, via_root) lookups done before the late registration; returns the name of the class the final
+    lookup builds (or 'ValueError')"""
+    for al, via_root in hist:
+        try:
+            (Probe if via_root else A).from_alias(al)
+        except ValueError:
+            pass
+    late(A2, sibling, Probe)
+    try:
+        r = (Probe if final_via_root else A).from_alias(final_alias, k=3)
+    except ValueError:
+        return 'ValueError'
+    return '%s%r' % (type(r).__name__, sorted(r.kw.items()))
+
+
+def run_history(cfg):
+    """from_alias is a function of the classes registered at the time of the call: any history of earlier lookups (symbolic:
+    0-2 lookups, each of any alias through the family root or through a concrete class) followed by the registration of a
+    class below a concrete class gives the same result as no history at all, and the class registered last wins its alias."""
+    viol = []
+    ob = dis = 0
+
+    def pick(name):
+        for v in HIST_ALIASES[:-1]:
+            if decide(z3.Bool('%s_is_%s' % (name, v))):
+                return v
+        return HIST_ALIASES[-1]
+
+    def body():
+        ns = loader.load_unit('alias', name='pydrobert.speech.alias')
+        Probe, A, B, A2 = _hier(ns)
+        n = 2 if decide(z3.Bool('hist_two')) else (1 if decide(z3.Bool('hist_one')) else 0)
+        hist = [(pick('h%d' % i), decide(z3.Bool('h%d_via_root' % i))) for i in range(n)]
+        sibling = decide(z3.Bool('sibling_registered_in_between'))
+        al = pick('final')
+        via_root = decide(z3.Bool('final_via_root'))
+        got = _hist_run(None, Probe, A, A2, hist, sibling, al, via_root)
+        ns2 = loader.load_unit('alias', name='pydrobert.speech.alias')
+        P2, A_, B_, A2_ = _hier(ns2)
+        want = _hist_run(None, P2, A_, A2_, [], sibling, al, via_root)
+        w = dict(hist=[[a, bool(v)] for a, v in hist], sibling=bool(sibling), alias=al, via_root=bool(via_root), got=got, want=want)
+        if got != want:
+            return ('history changes the result', w)
+        doc = {'a': 'A3', 'late': 'A3', 'nope': 'ValueError'}.get(al)
+        if doc and not got.startswith(doc):
+            return ('late registration ignored', w)
+        return ('ok',)
+
+    for ctx, res in explore(body, max_paths=4000):
+        if res is None:
+            continue
+        ob += 1
+        if res[0] == 'ok':
+            dis += 1
+        else:
+            viol.append(dict(kind='history', what='%s: after lookups %s, registering a class below a concrete class, from_alias(%r) via %s builds %s, without the earlier lookups %s'
+                             % (res[0], res[1]['hist'], res[1]['alias'], 'the family root' if res[1]['via_root'] else 'the concrete class', res[1]['got'], res[1]['want']),
+                             **dict(res[1], **{'class': 'history/' + res[0]})))
+    return dict(obligations=ob, discharged=dis, violations=viol, samples=[{'config': 'history', 'cases': ob}], twin=dis > 0)
 
 
 FAMILIES = [('scales', 'ScalingFunction'), ('filters', 'LinearFilterBank'), ('filters', 'WindowFunction'), ('compute', 'FrameComputer'),
@@ -444,7 +520,7 @@ def run_nested(cfg):
 
 
 def run_config(cfg):
-    return {'crosshair': run_crosshair, 'fromarg': run_fromarg, 'registry': run_registry, 'nested': run_nested}[cfg['kind']](cfg)
+    return {'crosshair': run_crosshair, 'fromarg': run_fromarg, 'registry': run_registry, 'nested': run_nested, 'history': run_history}[cfg['kind']](cfg)
 
 
 def replay(w):
@@ -465,6 +541,40 @@ def replay(w):
         return {'reproduced': True, 'detail': '%s.from_alias(%r) returned a %s although %r is not a registered alias' % (w['family'], w['alias'], type(obj).__name__, w['alias'])}
     if k in ('registry', 'nested'):
         return {'reproduced': True, 'detail': w['what']}
+    if k == 'history':
+        def fam():
+            class Probe(AliasedFactory):
+                aliases = set()
+
+                def __init__(self, **kw):
+                    self.kw = kw
+
+            class A(Probe):
+                aliases = {'a', 'shared'}
+
+            class B(Probe):
+                aliases = {'b', 'shared'}
+
+            class A2(A):
+                aliases = {'a2', 'a'}
+
+            class C(Probe):
+                aliases = {'c'}
+
+            class C1(C):
+                aliases = {'deep'}
+
+            class D(Probe):
+                aliases = {'deep', 'd'}
+            return Probe, A, A2
+        P, A, A2 = fam()
+        got = _hist_run(None, P, A, A2, [tuple(h) for h in w['hist']], w['sibling'], w['alias'], w['via_root'])
+        P, A, A2 = fam()
+        want = _hist_run(None, P, A, A2, [], w['sibling'], w['alias'], w['via_root'])
+        doc = {'a': 'A3', 'late': 'A3', 'nope': 'ValueError'}.get(w['alias'])
+        bad = got != want or bool(doc and not got.startswith(doc))
+        return {'reproduced': bad, 'detail': 'real library: after the lookups %s and the registration of A3(A2) with aliases {a, shared, late}, from_alias(%r) builds %s; without the earlier lookups it builds %s'
+                % (w['hist'], w['alias'], got, want)}
 
     class Probe(AliasedFactory):
         aliases = set()
